@@ -3,7 +3,7 @@ use hx_projgen::gen::*;
 use hx_projgen::Rng;
 use std::collections::BTreeMap;
 fn main() {
-    hx_common::quiet_panics();
+    if std::env::var("CASE").is_err() { hx_common::quiet_panics(); }
     let n: u64 = std::env::args().nth(1).and_then(|s| s.parse().ok()).unwrap_or(200);
     let seed: u64 = std::env::var("VERIF_SEED").ok().and_then(|s| s.parse().ok()).unwrap_or(1);
     let mut o = GenOpts::default();
@@ -16,7 +16,9 @@ fn main() {
     let mut hist: BTreeMap<String, usize> = BTreeMap::new();
     let mut ok = 0;
     let mut shown: BTreeMap<String, usize> = BTreeMap::new();
+    let only: Option<u64> = std::env::var("CASE").ok().and_then(|s| s.parse().ok());
     for i in 0..n {
+        if only.map_or(false, |c| c != i) { continue; }
         let mut r = Rng::new(seed, i);
         let p = generate(&mut r, &o);
         let out = compile_project(&p);
